@@ -105,8 +105,27 @@ pub fn new_storage() -> (Stor, Rc<FaultCtl>) {
   (storage, ctl)
 }
 
+/// A nonce that differs from `n` only by white space around it (another string, so another nonce). For a token
+/// without nonce: a blank.
+pub fn whitespace_twin(n: &Option<String>) -> Option<String> {
+  let n = n.clone().unwrap_or_default();
+  ctx::stat("probe.nonce_whitespace_twin");
+  Some(match ctx::choose(4) {
+    0 => format!("{n} "),
+    1 => format!("{n}\n"),
+    2 => format!("\t{n}"),
+    _ => format!(" {n} "),
+  })
+}
+
 pub fn hex_tag() -> String {
-  ctx::bytes(32).iter().map(|b| format!("{b:02x}")).collect()
+  // (never the all-zero tag: that is the placeholder DID, which a published document does not keep; a replay tape
+  // being minimised draws zeros)
+  let mut bytes = ctx::bytes(32);
+  if bytes.iter().all(|b| *b == 0) {
+    bytes[31] = 1;
+  }
+  bytes.iter().map(|b| format!("{b:02x}")).collect()
 }
 
 impl Party {
